@@ -93,6 +93,10 @@ func (c *MetadataDefragContext[T]) Init() error {
 		c.Algorithm = AlgorithmFull
 	}
 
+	// Forget the previous run: its immovable blocks and any moves that were collected but never completed
+	c.immovableBlockCount = 0
+	c.moves = c.moves[:0]
+
 	return nil
 }
 
